@@ -46,6 +46,13 @@ func init() {
 		zz + "Settle":          extSettle,
 		zz + "Ite":             extIte,
 		zz + "IsConcrete":      func(fr *frame, a []value) value { return !isSym(a[0].(iface).v) },
+		zz + "And":             func(fr *frame, a []value) value { return andV(a[0], a[1]) },
+		zz + "Or":              func(fr *frame, a []value) value { return notV(andV(notV(a[0]), notV(a[1]))) },
+		zz + "Not":             func(fr *frame, a []value) value { return notV(a[0]) },
+		zz + "Implies":         func(fr *frame, a []value) value { return notV(andV(a[0], notV(a[1]))) },
+		zz + "Iff":             func(fr *frame, a []value) value { return equalsV(types.Typ[types.Bool], a[0], a[1]) },
+		zz + "StrEq":           func(fr *frame, a []value) value { return equalsV(types.Typ[types.String], a[0], a[1]) },
+		zz + "BytesEq":         extBytesEqual,
 
 		// ---- sync
 		"(*sync.Mutex).Lock":      extMutexLock,
